@@ -28,19 +28,20 @@ def run(tier, seed):
     from nauyaca.protocol.request import GeminiRequest
     rng = random.Random(seed)
     res = Result()
-    res.rule = ("generated document roots (nested directories, file/dir symlinks inside->inside, inside->outside, absolute, dangling, self-loops; a prefix-sharing sibling "
+    res.rule = ("generated document roots (nested directories, file/dir symlinks inside->inside, inside->outside, absolute, dangling, self-loops, targets that continue after a non-directory; a prefix-sharing sibling "
                 "'rootx'; index files incl. symlinked ones and links to names of more than 255 bytes; default and configured index names (with slashes, absolute, over-long, NUL); "
                 "undecodable and empty files) x spellings of every node (literal, percent-encoded, dot segments, //, %2e%2e, %2F, "
-                "NUL, backslash, ;params, traversal to the sibling/outside) with listing on/off; non-trivial = distinct (tree, spelling, listing)")
+                "NUL, backslash, ;params, traversal to the sibling/outside) with listing on/off; non-trivial = distinct (tree, spelling, listing); "
+                "every listing body byte for byte against Model/Listing.v; _format_file_size and str(Path(s).parent) on their own")
     tmp = scratch_dir("nv-c02-")
     ntrees = 60 if tier == "quick" else 1200
-    mcases, iobs, meta = [], [], []
+    mcases, iobs, meta, bodies = [], [], [], []
     indices_of = {}
     try:
         real_tmp = os.path.realpath(tmp)
         for ti in range(ntrees):
             fstree.clear(real_tmp)
-            nodes = fstree.gen_tree(rng)
+            nodes = fstree.gen_tree(rng, odd_links=True)
             fstree.build(real_tmp, nodes)
             fsm = fstree.model_fs(real_tmp, nodes)
             root = os.path.join(real_tmp, "root")
@@ -85,6 +86,8 @@ def run(tier, seed):
                     cfg = [fstree.comps(root), indices, listing, 64]
                     mcases.append(("static", enc([cfg, fsm, req.path])))
                     iobs.append(ci)
+                    # a listing body is compared byte for byte with Model/Listing.v (driver "listing_text")
+                    bodies.append((fsm, req.path, out.body if ci[0] == "listing" and isinstance(out.body, str) else None))
                     # OS-refereed facts for the monitor
                     served, leaks = [], False
                     if ci[0] == "serve":
@@ -128,6 +131,49 @@ def run(tier, seed):
         if mm != ci:
             res.disagreements.append({"driver": "static", "case": {"tree": [[a, b, (c.decode("utf-8", "replace") if isinstance(c, bytes) else c)] for a, b, c in nodes],
                                                                     "listing": listing, "path": up, "indices": [i[:80] for i in indices_of[(ti, listing)]]}, "model": mm, "impl": ci})
+    # the TEXT of every listing the real handler produced: generate_directory_listing(d, request.path) against
+    # Listing.listing_text on the directory d the model's handle() lists
+    lcases, lmeta = [], []
+    for i, ((ti, listing, up, ci, root, status, served, leaks, nodes), mo_) in enumerate(zip(meta, out)):
+        fsm, rpath, body = bodies[i]
+        if body is None or mo_ == OOM: continue
+        m = dec(mo_)
+        if m[0].text() != "listing": continue          # already reported by the driver "static"
+        lcases.append(("static.listing_text", enc([fsm, [a.text() for a in m[1]], rpath])))
+        lmeta.append((ti, listing, up, nodes, body))
+    for (ti, listing, up, nodes, body), lo in zip(lmeta, run_model_parallel(lcases)):
+        m = dec(lo)
+        mt = m[1].text() if m[0].text() == "ok" else None
+        res.evaluations += 1
+        res.count("listing_text:compared")
+        if mt != body:
+            res.disagreements.append({"driver": "listing_text", "case": {"tree": [[a, b, (c.decode("utf-8", "replace") if isinstance(c, bytes) else c)] for a, b, c in nodes],
+                                                                          "listing": listing, "path": up}, "model": mt, "impl": body})
+    # the two pure functions of content/gemtext.py on their own: _format_file_size around every threshold (and beyond 2^53,
+    # where the int is rounded to a float), str(Path(s).parent) on slash / dot patterns
+    from nauyaca.content.gemtext import _format_file_size
+    sizes = set()
+    for k in (0, 10, 20, 30, 40, 50, 53, 54, 60, 63, 70):
+        for mul in (1, 10, 1000, 1023, 1024):
+            for dlt in (-2, -1, 0, 1, 2, 51, 52, 102, 103, 512):
+                v = mul * 2 ** k + dlt
+                if v >= 0: sizes.add(v)
+    for _ in range(300 if tier == "quick" else 5000):
+        sizes.add(rng.getrandbits(rng.choice([8, 12, 16, 21, 26, 33, 41, 47, 55, 64])))
+    sizes = sorted(sizes)
+    for v, lo in zip(sizes, run_model_parallel([("gemtext.size", enc(v)) for v in sizes])):
+        res.evaluations += 1
+        res.count("format_file_size:compared")
+        if dec(lo).text() != _format_file_size(v):
+            res.disagreements.append({"driver": "format_file_size", "case": {"size": v}, "model": dec(lo).text(), "impl": _format_file_size(v)})
+    pstrs = ["", "/", "//", "///", "/a", "/a/", "//a", "//a/", "///a/b/", "a/", "a/b/", "./", "/./", "/a/./", "/a/../", "/../", "/a//b//", "/%2e%2e/", "/a b/", "/\u00e9/x/", ".", "..", "../", "/a/.", "//a//b/./"]
+    for _ in range(200 if tier == "quick" else 3000):
+        pstrs.append("".join(rng.choice(["/", "/", "a", ".", "..", "b c", "%2F"]) for _ in range(rng.randint(0, 7))))
+    for v, lo in zip(pstrs, run_model_parallel([("gemtext.parent", enc(v)) for v in pstrs])):
+        res.evaluations += 1
+        res.count("path_parent:compared")
+        if dec(lo).text() != str(Path(v).parent):
+            res.disagreements.append({"driver": "path_parent", "case": {"base": v}, "model": dec(lo).text(), "impl": str(Path(v).parent)})
     mo = run_model_parallel([("C02.ok", enc([root, status, served, leaks])) for (ti, listing, up, ci, root, status, served, leaks, nodes) in meta])
     for me, m in zip(meta, mo):
         if m != enc(True):
